@@ -120,6 +120,7 @@ class Context:
                 raise AnalysisError(rule, "cannot parse %s: %s" % (rel, e))
             if rel.endswith(".py") and "/generated/" not in rel and os.environ.get("VERIF_NO_NORMALISE") != "1":
                 normalise_polarity(mod)
+                inline_temporaries(mod)
             for parent in ast.walk(mod):
                 for child in ast.iter_child_nodes(parent):
                     child._parent = parent  # type: ignore[attr-defined]
@@ -203,6 +204,71 @@ def normalise_polarity(mod: ast.AST) -> int:
         n.body, n.orelse = n.orelse, n.body
         n_flipped += 1
     return n_flipped
+
+
+def _fn_params(fn) -> set:
+    a = fn.args
+    out = {x.arg for x in a.posonlyargs + a.args + a.kwonlyargs}
+    if a.vararg:
+        out.add(a.vararg.arg)
+    if a.kwarg:
+        out.add(a.kwarg.arg)
+    return out
+
+
+def inline_temporaries(mod: ast.AST) -> int:
+    """Canonical form w.r.t. one-shot temporaries: a local that is bound exactly once by a plain `t = <expr>` and read exactly
+    once, in the very next simple statement of the same block (and not inside a lambda/comprehension/nested def), is replaced
+    by its value there and the binding is dropped.  `t = f(x); obj.a = t` and `obj.a = f(x)` are then the same statement for
+    every rule, whichever of the two a developer wrote."""
+    count = 0
+    for fn in [n for n in ast.walk(mod) if isinstance(n, (ast.FunctionDef, ast.AsyncFunctionDef))]:
+        changed = True
+        while changed:
+            changed = False
+            stores, loads = {}, {}
+            for n in ast.walk(fn):
+                if isinstance(n, ast.Name):
+                    (stores if isinstance(n.ctx, (ast.Store, ast.Del)) else loads).setdefault(n.id, []).append(n)
+                elif isinstance(n, (ast.Global, ast.Nonlocal)):
+                    for nm in n.names:
+                        stores.setdefault(nm, []).extend([n, n])
+            params = _fn_params(fn)
+            for node in ast.walk(fn):
+                for fld in ("body", "orelse", "finalbody"):
+                    b = getattr(node, fld, None)
+                    if not isinstance(b, list):
+                        continue
+                    i = 0
+                    while i + 1 < len(b):
+                        st, nxt = b[i], b[i + 1]
+                        if isinstance(st, ast.Assign) and len(st.targets) == 1 and isinstance(st.targets[0], ast.Name):
+                            v = st.targets[0].id
+                            if v not in params and len(stores.get(v, [])) == 1 and len(loads.get(v, [])) == 1 \
+                                    and not isinstance(st.value, (ast.Yield, ast.YieldFrom, ast.Await)) \
+                                    and isinstance(nxt, (ast.Assign, ast.Expr, ast.Return, ast.AugAssign)):
+                                use = loads[v][0]
+                                inside = any(x is use for x in ast.walk(nxt))
+                                nested = any(isinstance(x, (ast.Lambda, ast.ListComp, ast.GeneratorExp, ast.SetComp, ast.DictComp, ast.FunctionDef))
+                                             and any(y is use for y in ast.walk(x)) for x in ast.walk(nxt))
+                                if inside and not nested:
+                                    val = st.value
+
+                                    class _R(ast.NodeTransformer):
+                                        def visit_Name(self, n, _u=use, _val=val):
+                                            return _val if n is _u else n
+
+                                    b[i + 1] = _R().visit(nxt)
+                                    del b[i]
+                                    count += 1
+                                    changed = True
+                                    continue
+                        i += 1
+                    if changed:
+                        break
+                if changed:
+                    break
+    return count
 
 
 def _flat_defs(body):
